@@ -401,8 +401,11 @@ func genMedia(r *rand.Rand, n int, emit func(Op)) {
 
 /* ---------- whole items: header + body + attachments, numbers read off the text ---------- */
 
-/* links as they can stand in fetched content: nothing here is special to servitor, everything
-   is special to a shell, an option parser or the placeholder substitution */
+/*
+links as they can stand in fetched content: nothing here is special to servitor, everything
+
+	is special to a shell, an option parser or the placeholder substitution
+*/
 var hostileLinks = []string{"-rf", "--help", "--output=/tmp/x", "-", "--", "a b c", "  lead", "trail ", " ", "'; rm -rf ~ #", "\"quoted\"", "it's", "$(touch /tmp/pwn)", "`id`", "$HOME", "${IFS}x", "a;b|c&d", "~", "*", "\\", "line1\nline2", "a\tb",
 	"%url", "%mimetype", "%subtype", "%supertype", "%url%url", "%url %url", "x%url", "%URL", "%%url", "https://h/%75rl?x=%url",
 	"data:text/html,<script>alert(1)</script>", "data:image/png;base64,AAAA", "file:///etc/passwd", "javascript:alert(1)", "mailto:a@b.example?subject=x y", "relative/path", "../up", "/abs", "?q=1", "#frag", "//h.example/x",
@@ -659,9 +662,12 @@ func (g *wholeGen) plainBody() string {
 	return strings.Join(parts, pick(r, []string{" ", "\n", " , "}))
 }
 
-/* the alt text of an attachment whose name has the wrong type is an error: the entry is shown
-   without a number while the next one skips a number (DESIGN.md §6 no. 12).  Such entries are
-   generated, but the count of the numbers is only judged on them when this is set. */
+/*
+the alt text of an attachment whose name has the wrong type is an error: the entry is shown
+
+	without a number while the next one skips a number (DESIGN.md §6 no. 12).  Such entries are
+	generated, but the count of the numbers is only judged on them when this is set.
+*/
 var judgeUnnumberedAttachments = os.Getenv("VERIF_C12_UNNUMBERED_ATTACHMENT") != ""
 
 func (g *wholeGen) attachment() any {
